@@ -275,6 +275,12 @@ func genSession(t *rapid.T, o sessOpts) sessCase {
 		case "sleep-reconnect":
 			// the client sleeps and comes back with a CONNECT (not a PINGREQ): the gateway answers the
 			// CONNACK itself and pings the broker on its own account
+			// (in half of the cases the broker answers the gateway's own PINGREQs the moment they are
+			// written, not when the gateway has come to rest)
+			eager := rapid.Bool().Draw(t, "eager_broker")
+			if eager {
+				sc.Steps = append(sc.Steps, gwsim.Step{K: "eagerping", D: int64(rapid.SampledFrom([]int{0, 1, 3, 10}).Draw(t, "yield"))})
+			}
 			sc.Steps = append(sc.Steps, gwgen.SN(gwgen.Disconnect(uint16(rapid.SampledFrom([]int{5, 60, 600}).Draw(t, "sleep_s")))))
 			if d := rapid.SampledFrom([]int64{0, 0, 1000, 4000}).Draw(t, "asleep_ms"); d > 0 {
 				sc.Steps = append(sc.Steps, gwgen.Adv(d))
@@ -289,6 +295,12 @@ func genSession(t *rapid.T, o sessOpts) sessCase {
 				}
 			}
 			sc.Steps = append(sc.Steps, gwgen.SN(gwgen.Connect(c.ClientID, keepalive, false, rapid.Bool().Draw(t, "clean"))))
+			if eager {
+				sc.Steps = append(sc.Steps, gwsim.Step{K: "eagerping", D: -1})
+			}
+			if rapid.Bool().Draw(t, "ping_after") {
+				sc.Steps = append(sc.Steps, gwgen.SN(gwgen.Pingreq("")))
+			}
 		case "sub-reuse":
 			// a SUBSCRIBE which the broker answers (grants or refuses), then the same message ID again
 			// for another SUBSCRIBE (it is free once the SUBACK has arrived), with time in between
@@ -881,6 +893,13 @@ func runC03(c sessCase) (r vf.Result) {
 			}
 		case st.K == "sn" && st.SN.Type == snref.DISCONNECT && st.SN.Duration > 0:
 			asleep = true
+			// the answer to a sleep request is a DISCONNECT; the gateway's own ping of the broker is
+			// none of the client's business
+			for _, p := range gc {
+				if p.Type == snref.PINGRESP {
+					r.Fail("pingresp-without-pingreq/sleep-request", "the client announced a sleep and got a PINGRESP although it sent no PINGREQ\n%s", tr.Dump(25))
+				}
+			}
 		case st.K == "sn" && st.SN.Type == snref.CONNECT:
 			connects++
 			if connects == 1 || !asleep {
